@@ -323,7 +323,7 @@ def thresholds(tier):
   n = len(configs(tier))
   t = {"configs_explored": n, "exhaustive_sets_complete": n - 5, "cycles_judged": 30000, "messages_delivered": 8000,
        "count_checks": 10000, "resets_midrun": 50, "pipe_enq_when_full": 200, "bypass_deq_when_empty": 200,
-       "mixed_system_runs": 100, "mixed_messages_delivered": 1000, "peek_checks": 1000, "adapter_runs": 100, "adapter_zero_messages_accepted": 500, "split_system_runs": 100}
+       "mixed_system_runs": 100, "mixed_messages_delivered": 1000, "peek_checks": 1000, "adapter_runs": 100, "adapter_zero_messages_accepted": 500, "split_system_runs": 100, "queue_chain_runs": 100, "chain_messages_delivered": 1000}
   if tier == "thorough":
     t.update({"cycles_judged": 800000, "messages_delivered": 200000})
   return t
@@ -597,6 +597,63 @@ def run_split(sh, case):
     G.unload(mod)
 
 
+CHAIN_SRC = """
+from pymtl3 import *
+from pymtl3.stdlib.queues import BypassQueueRTL, DeqIfcRTL, EnqIfcRTL, NormalQueueRTL, PipeQueueRTL
+class QChain(Component):
+  # enq -> q[0] -> q[1] -> ... -> deq; neighbouring stages are linked with connect( q[i].deq, q[i+1].enq ), i.e. through the
+  # library's give -> recv adapter
+  def construct(s, stages):
+    s.enq = EnqIfcRTL(Bits16); s.deq = DeqIfcRTL(Bits16)
+    s.qs = [Q(Bits16, n) for (Q, n) in stages]
+    s.enq //= s.qs[0].enq
+    for i in range(len(stages) - 1):
+      connect(s.qs[i].deq, s.qs[i + 1].enq)
+    s.qs[-1].deq //= s.deq
+"""
+
+
+def run_chain(sh, case):
+  """two to four library queues chained deq -> enq: the chain is one FIFO - what is delivered is what was accepted, in order, and
+  never more in flight than the stages can hold (back-pressure included: a full 1-entry stage behind a loaded one)"""
+  from pymtl3 import DefaultPassGroup
+  from vlib import specgen as G
+  rng = sh.rng("chain", case)
+  mod = G.load_source(CHAIN_SRC, "c17chain")
+  try:
+    kinds = [rng.choice(["Normal", "Pipe", "Bypass"]) for _ in range(rng.randrange(2, 5))]
+    caps = [rng.choice([1, 1, 2, 3]) for _ in kinds]
+    top = mod.QChain([(getattr(mod, k + "QueueRTL"), n) for k, n in zip(kinds, caps)])
+    top.elaborate(); top.apply(DefaultPassGroup()); top.sim_reset()
+    p_enq, p_deq = rng.choice([(0.9, 0.3), (0.5, 0.5), (0.95, 0.1), (0.7, 0.9)])
+    accepted, delivered, nxt = [], [], 1
+    for cyc in range(rng.randrange(40, 120)):
+      want_enq, want_deq = rng.random() < p_enq, rng.random() < p_deq
+      top.enq.en @= 0; top.deq.en @= 0; top.enq.msg @= nxt
+      top.sim_eval_combinational()
+      if want_deq and top.deq.rdy:
+        top.deq.en @= 1; top.sim_eval_combinational()
+      if want_enq and top.enq.rdy:
+        top.enq.en @= 1; top.sim_eval_combinational()
+      if top.deq.en: delivered.append(int(top.deq.ret))
+      if top.enq.en: accepted.append(nxt); nxt += 1
+      top.sim_tick()
+      sh.count("chain_cycles")
+    sh.count("queue_chain_runs"); sh.count("evaluations"); sh.count("chain_messages_delivered", len(delivered))
+    sh.fp("chain", tuple(kinds), tuple(caps), p_enq, p_deq)
+    ctx = {"stages": [f"{k}QueueRTL({n})" for k, n in zip(kinds, caps)], "p_enq": p_enq, "p_deq": p_deq,
+           "accepted": accepted[:30], "delivered": delivered[:30], "n_accepted": len(accepted), "n_delivered": len(delivered)}
+    if delivered != accepted[:len(delivered)]:
+      k = next((i for i, (a, b) in enumerate(zip(delivered, accepted)) if a != b), min(len(delivered), len(accepted)))
+      sh.violation("system-delivers-other-messages-than-were-accepted", dict(ctx, first_difference_at=k), case=("chain", case)); return
+    if len(accepted) - len(delivered) > sum(caps):
+      sh.violation("more-messages-in-flight-than-queue-and-adapter-can-hold", ctx, case=("chain", case)); return
+  except Exception:
+    sh.violation("mixed-system-raised", {"shape": "chain", "error": traceback.format_exc()[-600:]}, case=("chain", case))
+  finally:
+    G.unload(mod)
+
+
 ADAPT_SRC = """
 from pymtl3 import *
 from pymtl3.stdlib.stream import SendQueueAdapter, RecvQueueAdapter
@@ -702,6 +759,7 @@ def run_shard(sh):
   for case in range(3 if sh.tier == "quick" else 30):
     run_adapters(sh, cfg["cfg_idx"] * 100 + case)
     run_split(sh, cfg["cfg_idx"] * 100 + case)
+    run_chain(sh, cfg["cfg_idx"] * 100 + case)
   for case in range(3 if sh.tier == "quick" else 30):
     run_mixed(sh, cfg["cfg_idx"] * 100 + case)
   rng = sh.rng("cfg", cfg["cfg_idx"])
